@@ -10,8 +10,8 @@
 
   The sign with which a builder re-attaches the delay is read from the source text on every run
   (`Lcapy/Generated/RatfunSrc.lean`, harness/translate/tx_ratfun.py): a theorem `X_value` fails to build when
-  the source says `exp(+var·delay)`.  Beside each there is `X_value_partial`, valid for any sign, which
-  covers only delay-free expressions (what is missing: `delay ≠ 0`; the oracle of harness/c11.py covers it).
+  the source says `exp(+var·delay)` (as it did before the fix of finding C11-F11a); the sign-generic lemmas
+  `X_value_gen` (any sign, delay-free or sign −1) stay in Lcapy/Proofs/PolyRatfun.lean.
 
   SymPy root finding is not modelled: zeros, poles and residues are inputs and are CHECKED
   (`rootsCheck`, `pfCheck`, proved sound here).  Only property theorems live in this file; helper lemmas
@@ -19,6 +19,7 @@
 -/
 import Lcapy.Proofs.PolyRatfun
 import Lcapy.Proofs.PolyCF
+import Lcapy.Proofs.PolySynth
 import Lcapy.Generated.RatfunSrc
 import Mathlib.Tactic.NormNum
 namespace Lcapy.C11
@@ -118,23 +119,6 @@ theorem partfrac_value (R : RF K) (Q : List K) (poles : List (K × Nat)) (terms 
 example : pfCheck ([1, 5, 3] : List ℚ) [4, 6, 2] [3/2] [(-1, 1), (-2, 1)] [(-1/2, -1, 1), (-3/2, -2, 1)] = true := by
   decide +kernel
 
-/-! ### the same for ANY re-attachment sign, delay-free expressions only (`…_partial`: `delay ≠ 0` is missing) -/
-
-theorem canonical_value_partial (σ : K) (fc : Bool) (R : RF K) (env : Env K) (hE : IsExp env)
-    (hd : R.delay = 0) (hA : Poly.eval R.A env.x ≠ 0) :
-    (canonical σ fc R).eval env = R.value env := canonical_value_gen fc R env (Or.inr hd) hE.1 hA
-theorem general_value_partial (σ : K) (R : RF K) (env : Env K) (hE : IsExp env)
-    (hd : R.delay = 0) (hA : Poly.eval R.A env.x ≠ 0) :
-    (general σ R).eval env = R.value env := general_value_gen R env (Or.inr hd) hE.1 hA
-theorem timeconst_value_partial (σ : K) (R : RF K) (env : Env K)
-    (hd : R.delay = 0) (hA : Poly.eval R.A env.x ≠ 0) :
-    (timeconst σ R).eval env = R.value env := timeconst_value_gen R env (Or.inr hd) hA
-theorem zpk_value_partial (σ : K) (R : RF K) (zeros poles : List (K × Nat)) (env : Env K) (hE : IsExp env)
-    (hd : R.delay = 0) (hA : Poly.eval R.A env.x ≠ 0)
-    (hz : rootsCheck R.B zeros = true) (hp : rootsCheck R.A poles = true) :
-    (zpk σ R zeros poles).eval env = R.value env := zpk_value_gen R zeros poles env (Or.inr hd) hE.1 hA hz hp
-example : ({ exQ with delay := 0 } : RF ℚ).delay = 0 := rfl
-
 /-! ## 4. Poles, zeros, residues -/
 
 /-- **roots_check_sound**: a table that passes the check factorises the polynomial completely,
@@ -178,14 +162,6 @@ theorem zp2tf_value (zIsList pIsList : Bool) (zeros poles : List (K × Nat)) (g 
                     / (poles.map (fun rn => (env.x - rn.1) ^ rn.2)).prod :=
   zp2tfMixed_value (by decide) zIsList pIsList zeros poles g env hpl
 
-/-- for any choice of the tested name: arguments of the same kind (what `Ratfun.ZPK` passes). -/
-theorem zp2tf_value_partial (t : Bool) (isList : Bool) (zeros poles : List (K × Nat)) (g : RExpr K) (env : Env K)
-    (hpl : isList = true → ∀ rn ∈ poles, rn.2 = 1) :
-    ∃ e, zp2tfMixed t isList isList zeros poles g = some e ∧
-      e.eval env = g.eval env * (zeros.map (fun rn => (env.x - rn.1) ^ rn.2)).prod
-                    / (poles.map (fun rn => (env.x - rn.1) ^ rn.2)).prod :=
-  zp2tfMixed_value_same t isList zeros poles g env hpl
-
 /-! ## 6. Continued fraction (`continued_fraction_coeffs`, `as_continued_fraction`; shared with C19) -/
 
 /-- one Euclid step: `N = Q·D + N₂` with `Q = LT(N)/LT(D) = q x^k` (hence `N/D = Q + 1/(D/N₂)`) -/
@@ -208,5 +184,14 @@ theorem cf_value (fuel : Nat) (N D : List K) (cs : List (K × Nat)) (env : Env K
   cfExpr_value fuel N D cs env h hdef
 example : cfRun 5 ([1, 0, 1] : List ℚ) [0, 1] = .ok [(1, 1), (1, 1)] := by decide +kernel
 example : cfDefined 5 ([1, 0, 1] : List ℚ) [0, 1] 2 = true := by decide +kernel
+
+/-- **cf_inverse_value** (`continued_fraction_inverse_coeffs`, `as_continued_fraction_inverse`): the
+    coefficients `q·x^(−k)` produced by the expansion in `1/var` reconstruct `N/D`. -/
+theorem cf_inverse_value (N D : List K) (cs : List (K × Nat)) (x : K) (hx : x ≠ 0)
+    (h : cfiCoeffs N D = .ok cs) (hD : D ≠ [])
+    (hdef : Synth.cfDefinedSwap (2 * (max N.length D.length + max N.length D.length) + 3)
+      (revPad N (max N.length D.length)) (revPad D (max N.length D.length)) (1 / x) = true) :
+    Synth.cfVal true x cs = Poly.eval N x / Poly.eval D x := Synth.cfi_value' N D cs x hx h hD hdef
+example : cfiCoeffs ([1] : List ℚ) [1, 1] = .ok [(1, 0), (-1, 1), (-1, 0)] := by decide +kernel
 
 end Lcapy.C11
